@@ -41,18 +41,80 @@ def release_control():
     hpt.micros = _real_micros
 
 
+class _OneShot(object):
+    """stop_event of a worker for exactly one pass of its `while not self.stop_event.is_set()` loop"""
+    def __init__(self):
+        self.n = 0
+
+    def is_set(self):
+        self.n += 1
+        return self.n > 1
+
+    def set(self):
+        pass
+
+    def clear(self):
+        pass
+
+
+class _NoWait(object):
+    """queue_event of a worker under the virtual clock: a wait returns at once (the harness decides when time passes)"""
+    def wait(self, timeout=None):
+        return True
+
+    def is_set(self):
+        return False
+
+    def set(self):
+        pass
+
+    def clear(self):
+        pass
+
+
+class _KeepList(list):
+    """the worker's queue for one call of the REAL run(): the `del self.queue[:]` at the top of run() is skipped once"""
+    keep = True
+
+    def __delitem__(self, idx):
+        if self.keep and idx == slice(None, None, None):
+            self.keep = False
+            return
+        list.__delitem__(self, idx)
+
+
+def _one_pass(worker):
+    """execute ONE pass of the worker's real run() loop (the code of thread_worker.py as it is now, not a copy of it):
+    the stop event reads false exactly once, waits return at once, the queue survives run()'s initial clearing"""
+    orig_q, orig_stop, orig_ev = worker.queue, worker.stop_event, worker.queue_event
+    q = _KeepList(orig_q)
+    worker.queue, worker.stop_event, worker.queue_event = q, _OneShot(), _NoWait()
+    try:
+        type(worker).run(worker)
+    finally:
+        worker.stop_event, worker.queue_event = orig_stop, orig_ev
+        orig_q[:] = list(q)
+        worker.queue = orig_q
+
+
 def poll_timers():
-    """one pass of TimerThreadWorker.run's body: run_func on every queued timer"""
-    fired = 0
-    for t in timer_worker.queue[:]:
-        if t.run_func():
-            timer_worker.queue.remove(t)
-            fired += 1
-    return fired
+    """one pass of the REAL TimerThreadWorker.run loop (deadline scan, then run_func on the queued timers)"""
+    n0 = len(timer_worker.queue)
+    _one_pass(timer_worker)
+    return n0 - len(timer_worker.queue)
 
 
 def drain_process(on_item=None, limit=None):
-    """execute queued callables in order (ProcessThreadWorker.run's inner loop). returns list of (func, args)"""
+    """the process worker's queue: with no hook, one pass of the REAL ProcessThreadWorker.run loop; with a hook
+    (`on_item` may veto the call, `limit` bounds the number of items) the same pop-and-call loop run by the harness.
+    returns list of (func, args)"""
+    if on_item is None and limit is None:
+        done = list(process_worker.queue)
+        guard = 0
+        while process_worker.queue and guard < 1000:       # callbacks may queue further work
+            _one_pass(process_worker)
+            guard += 1
+        return done
     done = []
     while process_worker.queue and (limit is None or len(done) < limit):
         func, args = process_worker.queue.pop(0)
